@@ -40,11 +40,13 @@ PROPS["C02"] = dict(
 )
 
 PROPS["C06"] = dict(
-    functions=[(TX + "get_frame", 6), TX + "__init__", TX + "write", TX + "get_reset_frame", (TX + "on_data_delivery", 4), RS + "__init__", RS + "add", RS + "shift", RS + "__getitem__"],
+    functions=[(TX + "get_frame", 6), TX + "__init__", TX + "write", TX + "get_reset_frame", (TX + "on_data_delivery", 4), TX + "next_offset", RS + "__init__", RS + "add", RS + "shift", RS + "__getitem__",
+               CONN0 + "_write_stream_frame", CONN0 + "_write_reset_stream_frame", CONN0 + "_write_stop_sending_frame", RX + "get_stop_frame", CONN0 + "_write_application@stream_credit",
+               CONN0 + "_unblock_streams", CONN0 + "_handle_max_data_frame"],
     bounded=["rangeset-smallscope", "stream-sender-model", "native-xcheck-stream"],
-    scope="decided for all states and arguments of the send half: every STREAM frame cut by get_frame ends at or below max_offset (the per-stream/connection credit handed in by the connection) and carries at most max_size bytes; highest_offset is the running maximum of frame ends, so a retransmitted range (offset below highest_offset) does not raise it and consumes no additional credit; the RESET_STREAM final size equals highest_offset",
+    scope="CONNECTION LEVEL (all states satisfying the stated entry conditions, all arguments): _write_stream_frame returns exactly the growth of the stream's highest offset (0 for a retransmission) and never lets it pass max_offset; the per-stream block of _write_application's stream loop (block contract, extracted from the real function on every run) adds exactly that growth to the connection-wide counter, keeps the counter within the peer's MAX_DATA and the stream within the peer's per-stream limit, and puts NOTHING on the wire (no STREAM, RESET_STREAM or STOP_SENDING) for a stream still blocked by the peer's stream-count limit; a frame taken out of a send half is always written (no QuicPacketBuilderStop after get_frame: a FIN-only frame cannot be lost); _unblock_streams unblocks exactly the queued streams now below the limit, in order, stopping at the first that is not; MAX_DATA only grows the limit. SEND HALF: every STREAM frame cut by get_frame ends at or below max_offset (the per-stream/connection credit handed in by the connection) and carries at most max_size bytes; highest_offset is the running maximum of frame ends, so a retransmitted range (offset below highest_offset) does not raise it and consumes no additional credit; the RESET_STREAM final size equals highest_offset",
     lemma="per-stream clause of C06: by induction over calls, highest_offset = max over emitted frames of offset+len (get_frame ensures.5/6, write leaves it unchanged), and each emitted frame satisfies offset+len <= max_offset (ensures.2); hence highest offset sent <= the limit passed by the caller at that call",
-    not_decided="that QuicConnection._write_stream_frame passes min(per-stream limit, connection credit) as max_offset, the connection-level sum, and stream-count limits (connection.py is outside the subset the engine handles today); 'blocked data is sent once the limit is raised' (liveness)",
+    not_decided="the rest of _write_application (the block contract's entry conditions - counter within MAX_DATA, stream within its limit, a packet open - are ASSUMED at block entry, they are established by the previous iterations and by start_packet, which is not composed here), _get_or_create_stream_for_send (blocking of new streams beyond the limit), MAX_STREAM_DATA / MAX_STREAMS handlers, _parse_transport_parameters (0-RTT remembered limits), 'blocked data is sent once the limit is raised' (liveness)",
     trusted_base=BASE + [SUBTRACT],
     assumptions=[SUBTRACT, A2],
 )
